@@ -619,6 +619,9 @@ func corpusTA(cfg *config) []string {
 		"dec mut " + hexStr("# Vehicle\n"),
 		"dec mut " + hexStr("# Lap 3\n"),
 		"dec mut " + hexStr("# Session End\n"),
+		// a flag column holding one character that is no flag
+		"dec mut " + hexStr("Time,GPS_Update,Latitude\n0.000,1,50.8590633\n0.010,x,50.8590633\n"),
+		"dec mut " + hexStr("Time,Brake (calculated),OBD_Update\n0.000,0,1\n0.010,7,1\n0.020,0,-\n"),
 		// a lap marker before the column names: the rows after it belong to the next lap
 		"dec wf " + hexStr("# Vehicle: X\n# Lap 0: 00:00:10.000\nTime,Lap\n0.000,1\n0.100,1\n# Lap 1: 00:00:20.500\n0.000,2\n# Session End\n"),
 		"dec mut " + hexStr("# End Point: 50.857952, -0.752617  @ 1.2.3 deg\nTime\n1.000\n"),
